@@ -25,14 +25,14 @@ def probes(rep, thorough):
 
 RULE = ("correspondence: random operation sequences (pushes incl. forced/dry-mass/sub-epsilon, pulls, pollutant pulls, "
         "evaporation, checks, balance calls, timestep ends with varying temperature) on Tank/ResidenceTank/DecayTank, "
-        "QueueTank/DecayQueueTank, Arc/PullArc/PushArc, QueueArc/DecayArc and AltQueueArc/DecayArcAlt between tank-backed or scripted (accept all / "
+        "QueueTank/DecayQueueTank, Arc/PullArc/PushArc, QueueArc/DecayArc and AltQueueArc/DecayArcAlt, and the nodes built on a queue tank (Sewer, QueueGroundwater: family tarea, coq/TimeArea.v) between tank-backed or scripted (accept all / "
         "part / none, varying per call) neighbours, over random pollutant partitions; the whole observable state after "
         "every operation is compared exactly with the Gallina model. monitors: the C04 clauses evaluated directly on the "
         "implementation after every operation of fresh sequences. non-trivial = distinct sequence of >= 3 operations. "
         "family net: random networks of the real node classes over plain arcs (object of the network-level theorem), every store and arc record compared exactly after every operation. probes: random whole models after a run (every third after Model.reinit() and another run): a push and a pull over every plain arc next to a store-backed node, store change = arc record = amount handed over, volume and every additive pollutant; every tagged push the library emits, sent over an arc to an instance of every class it can meet (incl. a Land without impervious surfaces): carried = offer - remainder is in the target's stores")
 
 if __name__ == "__main__":
-    sys.exit(comp_check.run("C04", "tank arc qarc altarc qtank".split(), RULE,
+    sys.exit(comp_check.run("C04", "tank arc qarc altarc qtank tarea".split(), RULE,
                             ["exact-rational semantics stands for float semantics up to rounding",
                              "offers are wet (non-negative, pollutant mass only with positive volume); no arc-level force for capacity clauses",
                              "end nodes respect the reply contract (proved for tank-backed ends)"],
